@@ -10,14 +10,8 @@ theorem runLine_inv (line : String) {env : Env} {s : St} (hinv : Inv env s) (f :
   simp only [wp_bind, wp_emit]
   have hinv' : Inv env { s with log := .call line :: s.log } := hinv
   split
-  · split
-    · simpa using hinv'
-    · split
-      · simpa using hinv'
-      · split <;> simpa using hinv'
-  · split
-    · simpa using hinv'
-    · exact step_inv _ hinv' f
+  · simpa using hinv'
+  · exact step_inv _ hinv' f
 
 theorem runLines_inv (lines : List String) {env : Env} {s : St} (hinv : Inv env s) (f : Nat → Bool) :
     wp (runLines lines env) f s (fun r s' => Inv r.2 s') := by
